@@ -73,15 +73,15 @@ PROPS = {
         level="exploration",
         rule="rapid state machines for each of the eight generated joins and IngressPods (drawn per case): one fake API server per side (three for the double join), typed base controllers whose first lists are gated in generated combinations and released in generated order, the join created before the releases; operations: source put/delete over 2 namespaces x 3 names with selectors {absent, empty, labels, In/NotIn/Exists/DoesNotExist, template labels} (ingress: default backend and paths), destination put/delete over 2 namespaces x 6 names x label maps, (double join) service put/delete, check, and create/close cycles of the join over the long-lived bases. Oracle at checks: after a destination-side double marker the join cache must converge, without any further source event, to the reference selection (bounded wait); then, after a source-side probe barrier: join cache == reference selection computed with the C19 ownership predicates over the servers' state; strict mirror of the join's Events() == cache; join not Ready() and silent before both bases are ready; after Close(): Done, goroutines created by the library back at the bases' own footprint, each base still delivers a fresh event to a fresh subscriber; at the end zero library goroutines. Non-trivial = source changes that add and source changes that remove destination objects (in one step or in separate steps) and >= 1 create/close cycle; distinct = (join, history).",
         assumptions=["RCPods: sources and destination objects are kept in one namespace because of the recorded finding C19/rc-podsfilter-ignores-namespace (excluded by construction, counted)", "a check whose first comparison differs is given until the wedge bound to converge (the property speaks of the quiescent state); persistent differences are violations"],
-        quick=[J("TestC09_Joins", checks=60, shards=12, procs=[2, 4, 8, 16])],
+        quick=[J("TestC09_Joins", checks=90, shards=12, procs=[2, 4, 8, 16])],
         thorough=[J("TestC09_Joins", checks=2500, shards=16, procs=[1, 2, 4, 8, 16], timeout=2400)],
     ),
     "C14": dict(
         level="fault_enumeration",
-        rule="(a) list faults: failure kind in {List error, (nil,nil), non-list object, meta.List without Items, list of non-objects} x k in 1..5 (the k-th list fails; lists gated, period 1.5 ms) x a rapid-generated tree of 0-7 descendants (all attach kinds, monitors) built before or after the first list, with traffic and checked barriers between the successful lists; oracle: Done() closes, Error() non-nil (errors.Is the injected error), Ready() closed iff k > 1, lists 1..k-1 applied, every descendant done with Events() closed, no library goroutine left. (b) watch faults: histories with up to 2 (thorough 4) faults from {abrupt close, frame without object, streak of 1-2 connect errors} plus per-session plans of status / bookmark / unknown-type frames; oracle: not done and Error()==ErrRunning right after the fault and after the reconnect, the tree converges through the watch (checked barrier), one List call only; then Close() => Error()==nil, or context cancel => Done and Error() nil or context.Canceled. Non-trivial = list fault at k >= 2 with >= 3 descendants, or >= 2 different watch fault kinds plus non-object frames; distinct = hash of (fault, k, history).",
+        rule="(a) list faults: failure kind in {List error, (nil,nil), non-list object, meta.List without Items, list of non-objects} x k in 1..5 (the k-th list fails; lists gated, period 1.5 ms) x a rapid-generated tree of 0-7 descendants (all attach kinds, monitors) built before or after the first list, with traffic and checked barriers between the successful lists; oracle: Done() closes, Error() non-nil (errors.Is the injected error), Ready() closed iff k > 1, lists 1..k-1 applied, every descendant done with Events() closed, no library goroutine left. (a') the same five failure kinds injected into a list that returns while the controller is kept busy for 2-8 refresh periods (its filter blocks on a harness channel while applying a watch event): after release the controller must stop with the cause. (b) watch faults: histories with up to 2 (thorough 4) faults from {abrupt close, frame without object, streak of 1-2 connect errors} plus per-session plans of status / bookmark / unknown-type frames; oracle: not done and Error()==ErrRunning right after the fault and after the reconnect, the tree converges through the watch (checked barrier), one List call only; then Close() => Error()==nil, or context cancel => Done and Error() nil or context.Canceled. Non-trivial = list fault at k >= 2 with >= 3 descendants, or >= 2 different watch fault kinds plus non-object frames; distinct = hash of (fault, k, history).",
         assumptions=["after context cancellation only 'nil or wraps context.Canceled' is demanded of Error() (the statement constrains deliberate Close only)", "watch-fault cases pay the library's 1 s retry delay per reconnect and run in many parallel processes"],
-        quick=[J("TestC14_ListFaults", checks=300, shards=4), J("TestC14_WatchFaults", checks=2, shards=32, par=48, shrink="5s")],
-        thorough=[J("TestC14_ListFaults", checks=10000, shards=8, timeout=1800), J("TestC14_WatchFaults", checks=30, shards=64, par=64, env={"VERIF_C14_MAXFAULTS": "4"}, timeout=2400, shrink="5s")],
+        quick=[J("TestC14_ListFaults", checks=300, shards=4), J("TestC14_StalledController", checks=40, shards=6, par=32), J("TestC14_WatchFaults", checks=2, shards=32, par=48, shrink="5s")],
+        thorough=[J("TestC14_ListFaults", checks=10000, shards=8, timeout=1800), J("TestC14_StalledController", checks=600, shards=16, par=32, timeout=1800), J("TestC14_WatchFaults", checks=30, shards=64, par=64, env={"VERIF_C14_MAXFAULTS": "4"}, timeout=2400, shrink="5s")],
     ),
     "C13": dict(
         level="exploration",
@@ -108,7 +108,7 @@ PROPS = {
         level="exploration",
         rule="rapid cases: publisher kind {root, clone, filtered clone} x handler behaviour {fast, microsecond delay, slower than the producer, blocked on a harness channel then released} x Close moment {before the publisher is ready (first list gated), publisher shut down before ready, mid-stream, after the stream, never} x streams of 0-300 create/update/delete events in bursts between barriers; a recording handler logs every callback (kind, object, overlap counter, whether Done had been observed) and a witness subscription is created back-to-back with the monitor. Oracle: OnInitialize at most once, first, with the publisher's cache at readiness; callbacks == witness events one for one (type and object identity), a prefix when closed mid-stream, an in-order subsequence when the handler was blocked beyond the buffer; never overlapping; none after Done was observed; none at all when the publisher died before ready. Non-trivial = >= 20 callbacks of all three types with a slow/blocked handler or a mid-stream Close; distinct = hash of history.",
         assumptions=["typed monitors are compared with untyped ones in the C20 differential"],
-        quick=[J("TestC16_Monitor", checks=150, shards=8, procs=[2, 4, 8, 16])],
+        quick=[J("TestC16_Monitor", checks=250, shards=8, procs=[2, 4, 8, 16])],
         thorough=[J("TestC16_Monitor", checks=4000, shards=16, procs=[1, 2, 4, 8, 16], timeout=2400)],
     ),
     "C12": dict(
